@@ -216,31 +216,25 @@ Definition wake (g : gcfg) (s : state) : state :=
 
 Definition add_closed (c : conn) (l : list conn) : list conn := if memN c l then l else c :: l.
 
-(* what a request gives back when it ends abnormally in program counter p *)
-Definition drop (s : state) (t : task) (ts' : tstate) : state :=
-  let ts := tasks s t in
-  match pcs ts with
-  | PWaitSlot =>
-      mkS (now s) (upd (tasks s) t ts') (ids s) (acq s) (remove_t t (waiters s)) (idle s) (closedc s)
-          (nconn s) (dns s)
-  | PResolve | PConnect =>
-      mkS (now s) (upd (tasks s) t ts') (ids s) (remove_t t (acq s)) (waiters s) (idle s) (closedc s)
-          (nconn s) (dns s)
-  | PHeaders | PBody _ =>
-      mkS (now s) (upd (tasks s) t ts') (ids s) (remove_t t (acq s)) (waiters s) (idle s)
-          (match conn_of ts with Some c => add_closed c (closedc s) | None => closedc s end)
-          (nconn s) (dns s)
-  | _ => set_task s t ts'
-  end.
+Definition close_conn_of (ts : tstate) (l : list conn) : list conn :=
+  match conn_of ts with Some c => add_closed c l | None => l end.
+
+(* request t ends (state ts'): its slot / queue entry is given back *)
+Definition give_back (s : state) (t : task) (ts' : tstate) (idle' closed' : list conn) : state :=
+  mkS (now s) (upd (tasks s) t ts') (ids s) (remove_t t (acq s)) (remove_t t (waiters s)) idle' closed'
+      (nconn s) (dns s).
 
 Definition holds_slot (p : pc) : bool :=
   match p with PResolve | PConnect | PHeaders | PBody _ => true | _ => false end.
+
+Definition has_conn (p : pc) : bool :=
+  match p with PHeaders | PBody _ => true | _ => false end.
 
 (* the request fails with f now: timers dropped, writer cancelled, connection closed (never released),
    slot / queue entry given back, next waiter woken *)
 Definition fail (g : gcfg) (s : state) (t : task) (f : failure) : state :=
   let ts := tasks s t in
-  let s1 := drop s t (failed ts f (now s)) in
+  let s1 := give_back s t (failed ts f (now s)) (idle s) (close_conn_of ts (closedc s)) in
   if holds_slot (pcs ts) then wake g s1 else s1.
 
 Definition live (p : pc) : bool :=
@@ -253,13 +247,56 @@ Definition awaiting (p : pc) : bool :=
 Definition connecting (p : pc) : bool :=
   match p with PWaitSlot | PResolve | PConnect => true | _ => false end.
 
+(* ---- per-request effects of the stimuli ----------------------------------------------------- *)
+
+Definition start_ts (g : gcfg) (c : tcfg) (nw : Z) : tstate :=
+  mkT c PIdle (mkTm (arm_total g c nw) None None None) nw 0 0 None false false None RHead.
+
+(* BaseConnector.connect past the first _get: inside ceil_timeout(connect) *)
+Definition enter_connect (g : gcfg) (ts : tstate) (nw : Z) : tstate :=
+  set_tm ts (mkTm (d_total (tm ts)) (arm_ctx g (c_connect (cfg ts)) (c_thr (cfg ts)) nw) None None).
+
+(* the writer task finished: protocol.start_timeout() *)
+Definition written_ts (ts : tstate) (nw : Z) : tstate :=
+  mkT (cfg ts) (pcs ts) (tm_read (tm ts) (arm_read (cfg ts) nw)) (started ts) (sock_started ts) nw
+      (conn_of ts) false (paused ts) (latched ts) (rp ts).
+
+(* the response head is complete: _request returns *)
+Definition head_ts (ts : tstate) (nw : Z) : tstate :=
+  mkT (cfg ts) (PBody false) (tm_read (tm ts) (arm_read (cfg ts) nw)) (started ts) (sock_started ts) nw
+      (conn_of ts) (writer ts) false (latched ts) (RBody false).
+
+(* a block larger than the read buffer arrives while the caller reads: pause and resume cancel out *)
+Definition big_read_ts (ts : tstate) (nw : Z) : tstate :=
+  mkT (cfg ts) (pcs ts) (tm_read (tm ts) (arm_read (cfg ts) nw)) (started ts) (sock_started ts) nw
+      (conn_of ts) (writer ts) false (latched ts) (RBody true).
+
+(* ... while nobody reads: the buffer passes its high-water mark, pause_reading drops the timer *)
+Definition big_pause_ts (ts : tstate) : tstate :=
+  mkT (cfg ts) (pcs ts) (tm_read (tm ts) None) (started ts) (sock_started ts) (last_io ts) (conn_of ts)
+      (writer ts) true (latched ts) (RBody true).
+
+Definition done_ts (ts : tstate) : tstate :=
+  mkT (cfg ts) PDone no_timers (started ts) (sock_started ts) (last_io ts) (conn_of ts) false false None REnd.
+
+(* the caller starts reading; a paused transport is resumed, which re-arms sock_read *)
+Definition read_ts (ts : tstate) (nw : Z) : tstate :=
+  if paused ts
+  then mkT (cfg ts) (PBody true) (tm_read (tm ts) (arm_read (cfg ts) nw)) (started ts) (sock_started ts) nw
+           (conn_of ts) (writer ts) false (latched ts) (rp ts)
+  else set_pc ts (PBody true).
+
+(* a timer fires while the caller is not awaiting aiohttp: latched until the next read *)
+Definition latch_total_ts (ts : tstate) : tstate :=
+  set_latched (set_tm ts (tm_total (tm ts) None))
+    (match latched ts with Some FSockRead => Some FSockRead | _ => Some FTotal end).
+Definition latch_read_ts (ts : tstate) : tstate :=
+  set_latched (set_tm ts (tm_read (tm ts) None)) (Some FSockRead).
+
 (* ---- step --------------------------------------------------------------------------------- *)
 
 Fixpoint all_timers_ok (x : Z) (f : task -> tstate) (l : list task) : bool :=
   match l with [] => true | t :: r => timers_ok x (f t) && all_timers_ok x f r end.
-
-Definition start_ts (g : gcfg) (c : tcfg) (nw : Z) : tstate :=
-  mkT c PIdle (mkTm (arm_total g c nw) None None None) nw 0 0 None false false None RHead.
 
 Definition step (g : gcfg) (s : state) (e : event) : option state :=
   match e with
@@ -272,17 +309,17 @@ Definition step (g : gcfg) (s : state) (e : event) : option state :=
       match pcs (tasks s t) with
       | PIdle =>
         let ts := start_ts g c (now s) in
-        let s0 := mkS (now s) (upd (tasks s) t ts) (ids s ++ [t]) (acq s) (waiters s) (idle s) (closedc s)
-                      (nconn s) (dns s) in
         match idle s with
-        | _ :: _ => Some (acquire g s0 t)                       (* first _get: outside the connect timeout *)
+        | _ :: _ =>                                             (* first _get: outside the connect timeout *)
+            Some (acquire g (mkS (now s) (upd (tasks s) t ts) (ids s ++ [t]) (acq s) (waiters s) (idle s)
+                                 (closedc s) (nconn s) (dns s)) t)
         | [] =>
-            let ts1 := set_tm ts (mkTm (d_total (tm ts)) (arm_ctx g (c_connect c) (c_thr c) (now s)) None None) in
-            let s1 := set_task s0 t ts1 in
+            let ts1 := enter_connect g ts (now s) in
             if connect_must_wait (avail g s)
-            then Some (mkS (now s) (upd (tasks s1) t (set_pc ts1 PWaitSlot)) (ids s1) (acq s1)
-                           (waiters s1 ++ [t]) (idle s1) (closedc s1) (nconn s1) (dns s1))
-            else Some (acquire g s1 t)
+            then Some (mkS (now s) (upd (tasks s) t (set_pc ts1 PWaitSlot)) (ids s ++ [t]) (acq s)
+                           (waiters s ++ [t]) (idle s) (closedc s) (nconn s) (dns s))
+            else Some (acquire g (mkS (now s) (upd (tasks s) t ts1) (ids s ++ [t]) (acq s) (waiters s)
+                                      (idle s) (closedc s) (nconn s) (dns s)) t)
         end
       | _ => None
       end
@@ -305,12 +342,7 @@ Definition step (g : gcfg) (s : state) (e : event) : option state :=
       end
   | EWritten t =>
       let ts := tasks s t in
-      if writer ts && live (pcs ts)
-      then Some (set_task s t
-             (let r := rearm_read ts (now s) in
-              mkT (cfg r) (pcs r) (tm r) (started r) (sock_started r) (last_io r) (conn_of r) false
-                  (paused r) (latched r) (rp r)))
-      else None
+      if writer ts && has_conn (pcs ts) then Some (set_task s t (written_ts ts (now s))) else None
   | EData t k =>
       let ts := tasks s t in
       if paused ts then None else
@@ -318,31 +350,17 @@ Definition step (g : gcfg) (s : state) (e : event) : option state :=
       match k, pcs ts, rp ts with
       | KPart, PHeaders, RHead => Some (set_task s t (rearm_read ts (now s)))
       | KPart, PBody _, RBody _ => Some (set_task s t (rearm_read ts (now s)))
-      | KHead, PHeaders, RHead =>
-          let r := rearm_read ts (now s) in
-          Some (set_task s t (mkT (cfg r) (PBody false) (tm r) (started r) (sock_started r) (last_io r)
-                                  (conn_of r) (writer r) false (latched r) (RBody false)))
-      | KBig, PBody true, RBody false =>
-          let r := rearm_read ts (now s) in
-          Some (set_task s t (mkT (cfg r) (pcs r) (tm r) (started r) (sock_started r) (last_io r)
-                                  (conn_of r) (writer r) false (latched r) (RBody true)))
-      | KBig, PBody false, RBody false =>
-          (* the buffer passes its high-water mark while nobody reads: pause_reading drops the timer *)
-          Some (set_task s t (mkT (cfg ts) (pcs ts) (tm_read (tm ts) None) (started ts) (sock_started ts)
-                                  (last_io ts) (conn_of ts) (writer ts) true (latched ts) (RBody true)))
+      | KHead, PHeaders, RHead => Some (set_task s t (head_ts ts (now s)))
+      | KBig, PBody true, RBody false => Some (set_task s t (big_read_ts ts (now s)))
+      | KBig, PBody false, RBody false => Some (set_task s t (big_pause_ts ts))
       | KEnd, PBody true, RBody _ =>
           (* end of body: timers dropped; the connection goes back to the pool, unless the writer is
              still alive (then it is cancelled and the connection is closed) *)
-          let ts' := mkT (cfg ts) PDone no_timers (started ts) (sock_started ts) (last_io ts) (conn_of ts)
-                         false false None REnd in
           match conn_of ts with
           | Some c =>
-              let s1 := if writer ts
-                        then mkS (now s) (upd (tasks s) t ts') (ids s) (remove_t t (acq s)) (waiters s) (idle s)
-                                 (add_closed c (closedc s)) (nconn s) (dns s)
-                        else mkS (now s) (upd (tasks s) t ts') (ids s) (remove_t t (acq s)) (waiters s)
-                                 (idle s ++ [c]) (closedc s) (nconn s) (dns s) in
-              Some (wake g s1)
+              Some (wake g (if writer ts
+                            then give_back s t (done_ts ts) (idle s) (add_closed c (closedc s))
+                            else give_back s t (done_ts ts) (idle s ++ [c]) (closedc s)))
           | None => None
           end
       | _, _, _ => None
@@ -353,14 +371,7 @@ Definition step (g : gcfg) (s : state) (e : event) : option state :=
       | PBody false =>
           match latched ts with
           | Some f => Some (fail g s t f)
-          | None =>
-              let ts1 := set_pc ts (PBody true) in
-              Some (set_task s t
-                (if paused ts
-                 then let r := rearm_read ts1 (now s) in
-                      mkT (cfg r) (pcs r) (tm r) (started r) (sock_started r) (last_io r) (conn_of r)
-                          (writer r) false (latched r) (rp r)
-                 else ts1))
+          | None => Some (set_task s t (read_ts ts (now s)))
           end
       | _ => None
       end
@@ -374,14 +385,12 @@ Definition step (g : gcfg) (s : state) (e : event) : option state :=
             match w with
             | TTotal =>
                 if awaiting (pcs ts) then Some (fail g s t FTotal)
-                else Some (set_task s t
-                       (set_latched (set_tm ts (tm_total (tm ts) None))
-                          (match latched ts with Some FSockRead => Some FSockRead | _ => Some FTotal end)))
+                else if live (pcs ts) then Some (set_task s t (latch_total_ts ts)) else None
             | TConn => if connecting (pcs ts) then Some (fail g s t FConnect) else None
             | TSock => match pcs ts with PConnect => Some (fail g s t FSockConnect) | _ => None end
             | TRead =>
                 if awaiting (pcs ts) then Some (fail g s t FSockRead)
-                else Some (set_task s t (set_latched (set_tm ts (tm_read (tm ts) None)) (Some FSockRead)))
+                else if live (pcs ts) then Some (set_task s t (latch_read_ts ts)) else None
             end
           else None
       | None => None
